@@ -1,7 +1,7 @@
 """C03 — RDY flow control, CLS and pause (engine E2)."""
 import e2
 
-TIE = ["Nsq.Tie.Chan"]
+TIE = ["Nsq.Tie.Chan", "Nsq.Tie.ChanFunc"]
 PROPS = ["Nsq.Props.C03", "Nsq.Props.C03Pump"]
 
 
